@@ -104,12 +104,41 @@ def run(ck):
                 ck.obligation('correspondence(generated model = sliced C on the exhaustive domain)', bad == 0, out2[:400])
             else:
                 ck.obligation('correspondence(generated model = sliced C on the exhaustive domain)', False, 'model not runnable: ' + blog[-300:])
+    # 3b. end to end: streams longer than the order-hint period (128) and than the encoder's circular queues, with real motion:
+    #     every picture decodes to the encoder's reconstruction, one packet per picture in order
+    from lib import e2e
+    okd, dbin, dstamp = e2e.driver(ck)
+    long_fail = None
+    if okd:
+        longs = [dict(w=192, h=128, n=150, content=8, decode=1, recon=1, **{'f:enc_mode': 8, 'f:qp': 32}),
+                 dict(w=128, h=64, n=270, content=2, decode=1, recon=1, **{'f:enc_mode': 8, 'f:hierarchical_levels': 3, 'f:intra_period_length': 100, 'f:intra_refresh_type': 2})]
+        if ck.tier == 'thorough':
+            longs += [dict(w=192, h=128, n=400, content=8, decode=1, recon=1, **{'f:enc_mode': 6, 'f:hierarchical_levels': 4}),
+                      dict(w=128, h=64, n=700, content=6, decode=1, recon=1, **{'f:enc_mode': 8, 'f:hierarchical_levels': 5, 'f:logical_processors': 2})]
+        lres = e2e.run_many(dbin, dstamp, longs, timeout=900, jobs=4)
+        for a, r in zip(longs, lres):
+            ck.evals += 1; ck.case(('long', a['n'], a['content']))
+            hh = r['hist']
+            if r['outcome'] != 'ok' or len(hh['pkts']) != a['n']:
+                long_fail = long_fail or (a, r, 'the encode / decode does not complete (%s, %d of %d packets)' % (r['outcome'], len(hh['pkts']), a['n']))
+                continue
+            dec = [d['hash'] for d in hh['dec']]; rec = [x['hash'] for x in sorted(hh['recon'], key=lambda x: x['pts'])]
+            pts = [p_['pts'] for p_ in hh['pkts']]
+            if dec != rec:
+                first = next((i for i, (x, y) in enumerate(zip(dec, rec)) if x != y), min(len(dec), len(rec)))
+                long_fail = long_fail or (a, r, 'decoded pictures differ from the reconstruction from display position %d on (%d decoded, %d reconstructed)' % (first, len(dec), len(rec)))
+            elif pts != sorted(pts) or len(set(pts)) != len(pts):
+                long_fail = long_fail or (a, r, 'packets are not in submission order')
+        ck.cov['long_streams'] = [a['n'] for a in longs]
+        if long_fail:
+            a, r, why = long_fail
+            ck.violation('long_stream:%d' % a['n'], 'a stream longer than the order-hint period is not encoded as well as a short one: %s: %s' % (why, e2e.describe(a)), dict(scenario=a, cmd=r.get('cmd')), True)
     # 4. decide
     if spec_fail:
         ck.violation('rel_dist_wrong:' + spec_fail['copy'], 'order-hint distance helper returns a value that is not the signed distance modulo the period: %s' % spec_fail, spec_fail, True)
     else:
         br = ck.broken_obligations()
-        if br:
+        if br and not long_fail:
             ck.violation('obligation_broken', 'C22 proof/tie no longer checks: ' + '; '.join('%s (%s)' % (n, d[:120]) for n, d in br[:4]),
                          dict(broken=[dict(name=n, detail=d) for n, d in br], searched='exhaustive C run of all copies, bits<=%d: no failing input' % maxbits), False)
     ck.cov['explanation'] = ('rel_dist_all_copies proved (Coq) for the Gallina translation of the 5 C copies regenerated from /repo on this run; '
